@@ -1,0 +1,18 @@
+//go:build verif
+
+// Contracts of package memview for the gocv verifier (property C30).
+// Comment-only: no Go code is compiled from this file.
+//
+// symstr(n): a string of n arbitrary bytes. addr_wellformed(s): s is written
+// in decimal (no leading zero, or the single digit 0), as 0x/0X followed by
+// hexadecimal digits, as 0b/0B followed by binary digits, or as 0 followed by
+// octal digits, and denotes a value below 2^64; addr_value(s): that value.
+
+package memview
+
+//@ func parseAddr
+//@   enum n in ADDRLENS
+//@   input:s symstr(n)
+//@   ensures[error-iff-malformed] (result1 != nil) == !addr_wellformed(s)
+//@   ensures[is-an-address] result1 == nil ==> holds_addr(result0)
+//@   ensures[value] result1 == nil ==> ifaceval(result0) == addr_value(s)
